@@ -242,6 +242,10 @@ Theorem C13_csv_roundtrip_bounded_partial : forallb rt_exact scope = true.
 Proof. exact csv_roundtrip_bounded. Qed.
 Print Assumptions C13_csv_roundtrip_bounded_partial.
 
+Theorem C13_q_csv_empty_input_rejected_refuted :
+  csv_encode [] = [] /\ csv_decode_arg true (csv_encode []) = Err /\ csv_decode_arg false (csv_encode []) = Ok [].
+Proof. exact q_csv_empty_input_rejected_refuted. Qed.
+
 Example C13_csv_known_losses :
   csv_decode (csv_encode [[[97]; [98]]; []; [[99]]]) = Err /\
   csv_decode (csv_encode [[[]]]) = Ok [] /\
